@@ -54,6 +54,9 @@ def analyse(P, cases, index, impl, model):
         st["n"] += 1
         oc = P.outcome(c, il)
         st["outcomes"][oc] = st["outcomes"].get(oc, 0) + 1
+        if il.startswith("ABORT"):
+            fails.append((i, "the implementation's process died or hung on this case: " + il[:200]))
+            continue
         if il.startswith("RUNNER-FAIL") or il.startswith("BAD-CASE") or il.startswith("BUILD-ERR"):
             runner.append((i, il))
             continue
